@@ -280,3 +280,18 @@ CHECKS["C04"]["text"] += " MODIFY / ALTER COLUMN / DROP / RENAME are applied to 
 CHECKS["C17"]["text"] += " Sequence names are also written double-quoted, bracketed, back-ticked and schema-qualified with quotes (the options after a delimited name are options all the same)."
 CHECKS["C11"]["text"] += " Two-element clause lists whose second column is named like a word of the column-definition vocabulary (CLUSTER BY (a, order), CLUSTERED BY (a, set)) are part of the Snowflake and Hive groups."
 CHECKS["C18"]["text"] += " Entity names are also written double-quoted, including names with a dot or a blank inside the quotes (schema and name are tokens, never a textual split)."
+
+CHECKS["C16"]["text"] += " Silent mode, semantically (O-silent): Parser.process_line -> process_statement -> parse_statement is evaluated abstractly with only the LALR call stubbed (returns a result / returns nothing / the error hooks raise DDLParserError; the interpreter models try / except over the package's exception hierarchy and bare re-raise): with silent=True the exception is swallowed, nothing is reported, the registers and the lexer flags are as before the statement and the next statement is handed over intact; with silent=False exactly that exception escapes; a recognised statement is reported once either way. The PLY error hooks are evaluated as well: p_error (with a token, and with None at the end of the input) raises DDLParserError exactly when silent is off, t_error raises DDLParserError and nothing else."
+CHECKS["C16"]["technique"] += "; abstract evaluation of the statement driver and of the error hooks with exception handling modelled over the package's exception classes"
+CHECKS["C19"] = dict(CHECKS["C19"])
+CHECKS["C19"]["engine"] = "entryabs (entry points evaluated abstractly with the outside world replaced by recorders) + objabs run_tail + E5 rules (T-FILE, T-CLI argument table)"
+CHECKS["C19"]["technique"] = "abstract evaluation of parse_from_file, cli.run_for_file, cli.main, dump_data_to_file and the dump branch of Parser.run over scenario tables (encoding x parser_settings x run arguments; flag combinations; directory listing; existing / missing target) with open / read / DDLParser(...) / run(...) / os / json / pprint / sys.exit recorded; syntactic statelessness and file-effect reachability rules"
+CHECKS["C19"]["text"] = ("Value flow through the entry points, however they are written (O-entry): in 90 combinations parse_from_file opens file_path once for reading with the given encoding, hands the decoded content as the only positional argument and parser_settings as the only keywords to DDLParser, passes file_path and the remaining keywords to run() and returns its result as is; it and its helpers keep no state between calls. sdp: --no-dump / -t / -o reach dump / dump_path / output_mode with the right polarity in all flag combinations, the result is printed exactly with -v or --no-dump, a missing path parses nothing, a file is parsed once, a directory once per .sql / .ddl / .hql / .bql file in listing order (extension test evaluated on representative names). dump_data_to_file creates a missing target with its parents, writes <target>/<name>_schema.json once with json.dump of the data. Parser.run dumps the result structure (before JSON encoding) exactly when dump is set, under the base name of file_path also for paths with dotted directories, and json_dump returns json.dumps of the same object (the real encoder, per exemplar). File-creating calls are reachable only under the dump / log_file guards (through helpers too).")
+CHECKS["C19"]["note"] = "Decided on scenario tables by abstract evaluation: the file system, real decoding of bytes and argparse's own behaviour are outside (trusted: open / argparse / json). A rewrite using pathlib is outside the interpreted subset (exit 2, never a silent pass)."
+CHECKS["C14"]["text"] += " T-SETORD also knows set algebra on dict views (d.keys() & e.keys()); T-NOGLOBAL also rejects attribute / item stores through a local taken out of a module-level registry (a per-class cache on the dialect classes); T-SHARED-DEFAULT covers mutable default arguments; the file-effect guard follows helper functions."
+CHECKS["C03"]["text"] += " The reset-before-parse obligation (T-DOM) is semantic: process_line is evaluated with the reset function not intercepted over all line classes and reachable states, the lexer flags being carried from line to line and dirtied by every parse; whenever a statement is handed to the grammar the flags must be the reset vector."
+for _e in ENGINES:
+    if _e["name"] == "E7 linemodel":
+        _e["serves_properties"] = ["C03", "C05", "C06", "C07", "C08", "C09", "C14", "C16", "C17"]
+ENGINES.append({"name": "entryabs", "path": "/verif/sdpverif/entryabs.py", "serves_properties": ["C19"],
+                "kind_free_text": "E3 interpreter with recorders for open / read / DDLParser(...) / run(...) / os / json / pprint / sys.exit: the entry points evaluated abstractly on scenario tables"})
